@@ -1263,7 +1263,16 @@ func (fg *FG) goStmt(st *State, x *ssa.Go) {
 				sargs = append(sargs, fg.val(a))
 			}
 			fg.usedAssumed[sc.Key] = true
-			fg.applyContract(st, sc, callee, cc.Signature(), sargs, x, nil)
+			// a spawned closure: its free variables (the captured cells) are visible by name
+			extra := map[string]Val{}
+			if fv := fg.val(cc.Value); fv.Clo != nil {
+				for i, f := range callee.FreeVars {
+					if i < len(fv.Clo.bindings) {
+						extra[f.Name()] = fv.Clo.bindings[i]
+					}
+				}
+			}
+			fg.applyContract(st, sc, callee, cc.Signature(), sargs, x, extra)
 		}
 	}()
 	var args []Val
